@@ -244,7 +244,9 @@ def check_program(p):
             frags = {"enum": None, "star": "*", "vwnp": node[1][1] if kind == "vwnp" else None}[kind]
             if frags and frags in [str(v) for v in vals]:
                 out.append(("exempt_parameterised", "%r was parameterised in %r" % (frags, s_par)))
-    if cls == "sqlite" and not out and all(isinstance(v, (str, int, float, bool)) or v is None for v in vals) and all(not isinstance(v, int) or abs(v) < 2 ** 63 for v in vals):
+    from pbt.props.c13 import _limited_setop_operand  # ORDER BY / LIMIT on a compound operand has no counterpart in SQLite's grammar
+
+    if cls == "sqlite" and not out and not _limited_setop_operand(p) and all(isinstance(v, (str, int, float, bool)) or v is None for v in vals) and all(not isinstance(v, int) or abs(v) < 2 ** 63 for v in vals):
         ra, rb = run_sqlite(s_inline, None), run_sqlite(s_par, vals)
         if ra[0] != rb[0] or (ra[0] == "ok" and ra != rb):
             if not (ra[0] == "err" and rb[0] == "err"):
